@@ -976,7 +976,9 @@ fn child_main(ctx: &mut Ctx, case: &Value) {
     let n_faulted = log.iter().filter(|r| r.faulted).count();
     let calls: Vec<Value> = ch.calls.iter().map(|c| json!({"call": c.what, "tok": c.tok, "res": c.res, "phases": c.tags.iter().collect::<Vec<_>>()})).collect();
     let any_err = ch.calls.iter().any(|c| c.res != "ok");
+    let op_threads: Vec<String> = if fault.is_none() { log.iter().map(|r| format!("{}|{}|{}", r.thread, r.kind.name(), r.path)).collect() } else { vec![] };
     let res = json!({
+        "op_threads": op_threads,
         "n_ops": n_ops, "n_faulted": n_faulted, "faulted": faulted, "calls": calls, "violations": ch.violations,
         "counts": ch.counts, "any_err": any_err, "gave_up": ch.gave_up,
         "phases": ch.calls.iter().flat_map(|c| c.tags.iter().cloned()).collect::<BTreeSet<_>>(),
@@ -1004,6 +1006,8 @@ fn scratch_dir() -> tempfile::TempDir {
 }
 
 enum ChildOutcome {
+    /// the operating system refused to start the child (resource limits); not a verdict
+    NotRun,
     Done(Value),
     Timeout,
     Died(String),
@@ -1016,19 +1020,33 @@ fn run_child(case: &Value, scratch: &Path, tag: &str, model: &str) -> ChildOutco
     c["child"] = json!(true);
     c["out"] = json!(out.to_str().unwrap());
     std::fs::write(&case_path, c.to_string()).unwrap();
-    let mut child = std::process::Command::new(std::env::current_exe().unwrap())
-        .args(["C11", "--replay", case_path.to_str().unwrap(), "--model", model, "--out", "/dev/null"])
-        .env("RUST_BACKTRACE", "0")
-        .stdout(std::process::Stdio::null())
-        .stderr(std::process::Stdio::null())
-        .spawn()
-        .expect("spawn child tvh");
+    // a loaded machine may refuse a fork for a moment: retry, never take that for a verdict
+    let mut spawned = None;
+    for attempt in 0..200 {
+        match std::process::Command::new(std::env::current_exe().unwrap())
+            .args(["C11", "--replay", case_path.to_str().unwrap(), "--model", model, "--out", "/dev/null"])
+            .env("RUST_BACKTRACE", "0")
+            .stdout(std::process::Stdio::null())
+            .stderr(std::process::Stdio::null())
+            .spawn()
+        {
+            Ok(c) => {
+                spawned = Some(c);
+                break;
+            }
+            Err(_) => std::thread::sleep(Duration::from_millis(50 + 10 * attempt)),
+        }
+    }
+    let Some(mut child) = spawned else {
+        let _ = std::fs::remove_file(&case_path);
+        return ChildOutcome::NotRun;
+    };
     let t0 = Instant::now();
     let status = loop {
         match child.try_wait() {
             Ok(Some(st)) => break Some(st),
             Ok(None) => {
-                if t0.elapsed() > CHILD_TIMEOUT {
+                if t0.elapsed() > case["timeout_s"].as_u64().map(Duration::from_secs).unwrap_or(CHILD_TIMEOUT) {
                     let _ = child.kill();
                     let _ = child.wait();
                     break None;
@@ -1041,6 +1059,14 @@ fn run_child(case: &Value, scratch: &Path, tag: &str, model: &str) -> ChildOutco
     let _ = std::fs::remove_file(&case_path);
     let res = match status {
         None => ChildOutcome::Timeout,
+        // exit code 101 before any result was written and within a moment: the child's own start-up
+        // (spawning its model driver) failed under load
+        Some(st) if !st.success() && !out.exists() && t0.elapsed() < Duration::from_millis(500) && case["retried"].is_null() => {
+            let mut c2 = case.clone();
+            c2["retried"] = json!(true);
+            std::thread::sleep(Duration::from_millis(200));
+            return run_child(&c2, scratch, tag, model);
+        }
         Some(st) => match std::fs::read_to_string(&out).ok().and_then(|s| serde_json::from_str::<Value>(&s).ok()) {
             Some(v) if st.success() => ChildOutcome::Done(v),
             _ => ChildOutcome::Died(format!("{st:?}")),
@@ -1065,7 +1091,7 @@ fn run_cases_parallel(cases: Vec<Value>, threads: usize) -> Vec<(Value, ChildOut
         joins.push(std::thread::spawn(move || loop {
             let item = queue.lock().unwrap().pop_front();
             let Some((i, case)) = item else { break };
-            let r = run_child(&case, scratch.path(), &format!("t{t}_{i}"), &model);
+            let r = catch_unwind(AssertUnwindSafe(|| run_child(&case, scratch.path(), &format!("t{t}_{i}"), &model))).unwrap_or(ChildOutcome::NotRun);
             let _ = tx.send((i, case, r));
         }));
     }
@@ -1077,12 +1103,23 @@ fn run_cases_parallel(cases: Vec<Value>, threads: usize) -> Vec<(Value, ChildOut
     for j in joins {
         let _ = j.join();
     }
-    out.into_iter().flatten().collect()
+    out.into_iter().flatten().collect::<Vec<_>>()
 }
 
 fn absorb(ctx: &mut Ctx, case: &Value, outcome: ChildOutcome) -> Option<u64> {
     let canon = format!("{} k={} perm={} policy={}", case["workload"]["name"], case["k"], case["perm"], case["policy"]);
     match outcome {
+        ChildOutcome::NotRun => {
+            ctx.report.count("runs:child-could-not-be-started");
+            None
+        }
+        ChildOutcome::Timeout if case["hang_probe"].as_bool() == Some(true) => {
+            ctx.report.case(&canon, true);
+            ctx.report.count("hang-probe:blocked");
+            ctx.report.violation("oracle", "C11:add-blocks-forever-after-failed-commit",
+                format!("after a commit that failed on a worker error (no rollback), the writer has no workers: more than PIPELINE_MAX_SIZE_IN_DOCS add_document calls fill the channel and the next one never returns (child killed after {} s; k={})", case["timeout_s"], case["k"]), case.clone());
+            None
+        }
         ChildOutcome::Timeout => {
             ctx.report.case(&canon, true);
             ctx.report.violation("oracle", "C11:hang", format!("the run did not finish within {} s (workload {}, k={}, permanent={}, policy {})", CHILD_TIMEOUT.as_secs(), case["workload"]["name"], case["k"], case["perm"], case["policy"]), case.clone());
@@ -1118,6 +1155,12 @@ fn absorb(ctx: &mut Ctx, case: &Value, outcome: ChildOutcome) -> Option<u64> {
             }
             if injected && ctx.report.samples.len() < 5 && v["any_err"].as_bool().unwrap_or(false) {
                 ctx.report.sample(json!({"workload": case["workload"]["name"], "k": case["k"], "permanent": case["perm"], "policy": case["policy"], "faulted": v["faulted"], "calls": v["calls"]}));
+            }
+            if let Some(t) = v["op_threads"].as_array() {
+                if !t.is_empty() {
+                    ctx.report.notes.push(format!("op_threads:{}:{}", case["workload"]["name"].as_str().unwrap_or(""),
+                        t.iter().map(|x| x.as_str().unwrap_or("")).collect::<Vec<_>>().join(",")));
+                }
             }
             v["n_ops"].as_u64()
         }
@@ -1179,8 +1222,33 @@ pub fn run(ctx: &mut Ctx) {
             }
         }
     }
-    ctx.report.count_n("child-runs", cases.len() as u64);
-    for (case, outcome) in run_cases_parallel(cases, threads) {
+    // thorough tier: the blocking add (runtime clause "does not hang") witnessed on the real code
+    if ctx.thorough() {
+        let probe = wl("hang-probe", 1, 0, false, true, vec![Step::New, Step::Add(1), Step::Commit, Step::Add(2), Step::Commit, Step::Add(10_050), Step::Commit, Step::Drop]);
+        let base = json!({"workload": probe.to_json(), "k": Value::Null, "perm": false, "policy": "B"});
+        ctx.report.notes.retain(|n| !n.starts_with("op_threads:hang-probe:"));
+        for (case, outcome) in run_cases_parallel(vec![base], 1) {
+            absorb(ctx, &case, outcome);
+        }
+        let threads_line = ctx.report.notes.iter().find(|n| n.starts_with("op_threads:hang-probe:")).cloned().unwrap_or_default();
+        let ths: Vec<&str> = threads_line.trim_start_matches("op_threads:hang-probe:").split(',').collect();
+        // the worker operations of the second transaction: after the first meta.json write
+        let metas: Vec<usize> = ths.iter().enumerate().filter(|(_, t)| **t == "segment_updater|atomic_write|meta.json").map(|(i, _)| i).collect();
+        let (lo, hi) = (metas.first().cloned().unwrap_or(usize::MAX), metas.get(1).cloned().unwrap_or(0));
+        let second: Vec<usize> = ths.iter().enumerate().filter(|(i, t)| *i > lo && *i < hi && t.starts_with("thrd-tantivy-index")).map(|(i, _)| i).collect();
+        for k in second.iter().step_by((second.len() / 3).max(1)).take(3) {
+            cases.push(json!({"workload": probe.to_json(), "k": k, "perm": false, "policy": "B", "timeout_s": 20, "hang_probe": true}));
+        }
+    }
+    ctx.report.notes.retain(|n| !n.starts_with("op_threads:"));
+    let planned = cases.len();
+    ctx.report.count_n("child-runs", planned as u64);
+    let results = run_cases_parallel(cases, threads);
+    if results.len() != planned {
+        ctx.report.notes.push(format!("{} of {planned} planned runs produced no result (worker thread died)", planned - results.len()));
+        ctx.report.count_n("runs:lost", (planned - results.len()) as u64);
+    }
+    for (case, outcome) in results {
         absorb(ctx, &case, outcome);
     }
 }
